@@ -28,19 +28,26 @@ import (
 )
 
 type spec struct {
-	Harness          string
-	OneShot          bool
-	QuickRuns        int
-	QuickWallS       int
-	ThoroughRuns     int
-	ThoroughWallS    int
-	Chunk            int
-	MandatoryProbes  []string // must be hit at least once in the thorough tier
-	Technique, Rule  string
-	Real, Stub       []string
-	Assumptions      []string
-	ShrinkEvals      int
+	Harness         string
+	OneShot         bool
+	QuickRuns       int
+	QuickWallS      int
+	ThoroughRuns    int
+	ThoroughWallS   int
+	Chunk           int
+	MandatoryProbes []string // must be hit at least once in the thorough tier
+	Technique, Rule string
+	Real, Stub      []string
+	Assumptions     []string
+	ShrinkEvals     int
+	// Extra: a second harness serving the same property (its runs follow the primary ones)
+	ExtraHarness      string
+	ExtraOneShot      bool
+	ExtraQuickRuns    int
+	ExtraThoroughRuns int
 }
+
+var oneShotHarness = map[string]bool{"H-CLUSTER": true}
 
 var dkvReal = []string{"dkv.DB", "dkv/memtable", "dkv/ziptree", "dkv/wal", "dkv/sst", "dkv/recovery", "dkv/bg", "dkv/mergesort", "dkv/fields", "dkv/bloom", "dkv/storage.Cursor", "util/ds", "util/sliceu"}
 var dkvStub = []string{"storage.FileSystem -> SimDisk (publish-on-Save atomicity, fd-like reads; not LocalFilesystem/S3 syscalls)", "kv.DataOwnership -> AllDataOwnership / harness wrapper"}
@@ -84,7 +91,10 @@ func init() {
 	specs["C02"] = opSpec(3000, 150000, "operator-ack", "checkpoint-verified")
 	specs["C03"] = opSpec(3000, 150000, "checkpoint-verified")
 	specs["C06"] = opSpec(1500, 60000, "checkpoint-verified", "operator-killed", "operator-redeployed-in-place")
-	specs["C11"] = opSpec(3000, 150000, "timer-expired", "checkpoint-verified")
+	c11 := opSpec(3000, 150000, "timer-expired", "checkpoint-verified")
+	c11.ExtraHarness, c11.ExtraOneShot, c11.ExtraQuickRuns, c11.ExtraThoroughRuns = "H-CLUSTER", true, 250, 8000
+	c11.Rule += "; plus H-CLUSTER runs (part a: every source runner's watermark per stream is monotone and stays below the largest timestamp it has keyed)"
+	specs["C11"] = c11
 	cluSpec := func(q, t int, probes ...string) spec {
 		return spec{Harness: "H-CLUSTER", OneShot: true, QuickRuns: q, QuickWallS: 70, ThoroughRuns: t, ThoroughWallS: 1500, MandatoryProbes: probes, ShrinkEvals: 120,
 			Real: []string{"jobs.Job / Registry / LivenessTracker / Assembly", "storage/snapshots.Store", "workers/sourcerunner", "workers/operator", "workers/wmark", "connectors.ReadSourceChannel", "batching", "partitioning", "dkv (all)", "clocks.SystemClock / SystemTimer on the fake clock", "generated protobuf code"},
@@ -167,6 +177,14 @@ func main() {
 	if chunk == 0 {
 		chunk = 100
 	}
+	primaryRuns := runs
+	if sp.ExtraHarness != "" && *runsOverride == 0 {
+		if *tier == "thorough" {
+			runs += sp.ExtraThoroughRuns
+		} else {
+			runs += sp.ExtraQuickRuns
+		}
+	}
 	outDir := filepath.Join("/verif/out", *prop)
 	os.RemoveAll(outDir)
 	os.MkdirAll(outDir, 0o755)
@@ -191,6 +209,15 @@ func main() {
 				}
 				from := next
 				to := min(next+chunk, runs)
+				harness := sp.Harness
+				if from < primaryRuns {
+					to = min(to, primaryRuns)
+				} else {
+					harness = sp.ExtraHarness
+					if sp.ExtraOneShot {
+						to = from + 1
+					}
+				}
 				next = to
 				nmu.Unlock()
 				tmu.Lock()
@@ -199,7 +226,7 @@ func main() {
 				if bad {
 					return
 				}
-				if msg := runWorker(*bin, *prop, *tier, seed, from, to, a, sp); msg != "" {
+				if msg := runWorker(*bin, *prop, *tier, harness, seed, from, to, a, sp); msg != "" {
 					tmu.Lock()
 					if trouble == "" {
 						trouble = msg
@@ -326,8 +353,8 @@ func workerCmd(bin, prop string, env ...string) *exec.Cmd {
 }
 
 // runWorker runs one chunk; returns a non-empty message on harness trouble.
-func runWorker(bin, prop, tier string, seed uint64, from, to int, a *agg, sp spec) string {
-	cmd := workerCmd(bin, prop, "VERIF_TIER="+tier, fmt.Sprintf("VERIF_SEED=%d", seed), fmt.Sprintf("VERIF_FROM=%d", from), fmt.Sprintf("VERIF_TO=%d", to), "VERIF_MODE=batch")
+func runWorker(bin, prop, tier, harness string, seed uint64, from, to int, a *agg, sp spec) string {
+	cmd := workerCmd(bin, prop, "VERIF_HARNESS="+harness, "VERIF_TIER="+tier, fmt.Sprintf("VERIF_SEED=%d", seed), fmt.Sprintf("VERIF_FROM=%d", from), fmt.Sprintf("VERIF_TO=%d", to), "VERIF_MODE=batch")
 	var stderr bytes.Buffer
 	cmd.Stderr = &stderr
 	out, err := cmd.StdoutPipe()
@@ -360,9 +387,9 @@ func runWorker(bin, prop, tier string, seed uint64, from, to int, a *agg, sp spe
 			if k := strings.LastIndex(stderr.String(), "RUNSTART "); k >= 0 {
 				fmt.Sscanf(stderr.String()[k:], "RUNSTART %d", &run)
 			}
-			if cs, ok := genCase(bin, prop, tier, seed, run); ok {
+			if cs, ok := genCase(bin, prop, tier, harness, seed, run); ok {
 				rs := runSeedOf(seed, run)
-				rf := &simcore.ReplayFile{Property: prop, Harness: sp.Harness, Seed: rs, Run: run, Case: cs, Choices: nil, Class: class, Violation: msg}
+				rf := &simcore.ReplayFile{Property: prop, Harness: harness, Seed: rs, Run: run, Case: cs, Choices: nil, Class: class, Violation: msg}
 				rf.Original.Ops = len(cs.Ops)
 				p := filepath.Join("/verif/out", prop, fmt.Sprintf("replay-%d-%d.json", rs, run))
 				rf.Write(p)
@@ -370,7 +397,7 @@ func runWorker(bin, prop, tier string, seed uint64, from, to int, a *agg, sp spe
 				b, _ := json.Marshal(res)
 				a.add(res, string(b))
 				if run+1 < to {
-					return runWorker(bin, prop, tier, seed, run+1, to, a, sp)
+					return runWorker(bin, prop, tier, harness, seed, run+1, to, a, sp)
 				}
 				return ""
 			}
@@ -441,8 +468,8 @@ func classifyCrash(prop, stderr string) (class, msg string, ok bool) {
 	return "", "", false
 }
 
-func genCase(bin, prop, tier string, seed uint64, run int) (simcore.Case, bool) {
-	cmd := workerCmd(bin, prop, "VERIF_TIER="+tier, fmt.Sprintf("VERIF_SEED=%d", seed), fmt.Sprintf("VERIF_FROM=%d", run), fmt.Sprintf("VERIF_TO=%d", run+1), "VERIF_MODE=gen")
+func genCase(bin, prop, tier, harness string, seed uint64, run int) (simcore.Case, bool) {
+	cmd := workerCmd(bin, prop, "VERIF_HARNESS="+harness, "VERIF_TIER="+tier, fmt.Sprintf("VERIF_SEED=%d", seed), fmt.Sprintf("VERIF_FROM=%d", run), fmt.Sprintf("VERIF_TO=%d", run+1), "VERIF_MODE=gen")
 	out, _ := cmd.Output()
 	for _, line := range strings.Split(string(out), "\n") {
 		if strings.HasPrefix(line, "{") {
@@ -566,7 +593,11 @@ func shrinkExternal(bin, prop, path string, sp spec) {
 	if evals == 0 {
 		evals = 400
 	}
-	if !sp.OneShot {
+	oneShot := sp.OneShot
+	if rfh, err := simcore.ReadReplay(path); err == nil {
+		oneShot = oneShotHarness[rfh.Harness]
+	}
+	if !oneShot {
 		cmd := workerCmd(bin, prop, "VERIF_MODE=shrink", "VERIF_REPLAY="+path, fmt.Sprintf("VERIF_SHRINK_EVALS=%d", evals))
 		cmd.Run()
 		return
@@ -607,26 +638,26 @@ func shrinkExternal(bin, prop, path string, sp spec) {
 
 func writeEvidence(prop, tier string, seed uint64, sp spec, a *agg, wallS float64, violations int, knownHit map[string]int, planned int) {
 	cov := map[string]any{
-		"evaluations":         a.results,
-		"distinct_nontrivial": len(a.nontrivial),
-		"rule":                sp.Rule,
-		"samples":             a.samples,
-		"planned_runs":        planned,
-		"runs_per_hour":       int(float64(a.results) / wallS * 3600),
-		"simulated_time_s":    float64(a.simNs) / 1e9,
-		"scheduler_steps":     a.steps,
-		"context_switches":    a.switches,
-		"choices_drawn":       a.choices,
-		"workload_ops_run":    a.ops,
-		"distinct_schedules":  len(a.sched),
+		"evaluations":              a.results,
+		"distinct_nontrivial":      len(a.nontrivial),
+		"rule":                     sp.Rule,
+		"samples":                  a.samples,
+		"planned_runs":             planned,
+		"runs_per_hour":            int(float64(a.results) / wallS * 3600),
+		"simulated_time_s":         float64(a.simNs) / 1e9,
+		"scheduler_steps":          a.steps,
+		"context_switches":         a.switches,
+		"choices_drawn":            a.choices,
+		"workload_ops_run":         a.ops,
+		"distinct_schedules":       len(a.sched),
 		"distinct_abstract_states": len(a.states),
-		"outcomes":            a.outcomes,
-		"faults_fired":        a.faults,
-		"probes_hit":          a.probes,
-		"components_real":     sp.Real,
-		"components_stub":     sp.Stub,
-		"known_findings_hit":  knownHit,
-		"harness":             sp.Harness,
+		"outcomes":                 a.outcomes,
+		"faults_fired":             a.faults,
+		"probes_hit":               a.probes,
+		"components_real":          sp.Real,
+		"components_stub":          sp.Stub,
+		"known_findings_hit":       knownHit,
+		"harness":                  strings.TrimSuffix(sp.Harness+" + "+sp.ExtraHarness, " + "),
 	}
 	ev := map[string]any{
 		"property_id": prop,
